@@ -42,6 +42,14 @@ pub struct Three {
     c: Probe,
 }
 
+/// the swarm's own `Toggle` combinator around each field (both enabled)
+#[derive(NetworkBehaviour)]
+#[behaviour(prelude = "libp2p_swarm::derive_prelude")]
+pub struct TwoToggle {
+    a: libp2p_swarm::behaviour::toggle::Toggle<Probe>,
+    b: libp2p_swarm::behaviour::toggle::Toggle<Probe>,
+}
+
 fn mem(n: u64) -> Multiaddr {
     Multiaddr::empty().with(Protocol::Memory(n))
 }
@@ -67,6 +75,7 @@ pub struct Out {
     quiescent: bool,
     addr_checks: u64,
     close_scripts: u64,
+    address_changes_seen: u64,
 }
 
 const POINTS: [Point; 4] = [Point::PendingInbound, Point::PendingOutbound, Point::EstablishedInbound, Point::EstablishedOutbound];
@@ -174,7 +183,7 @@ where
             j = (j + 1) % nodes;
         }
         let pj = net.peer(j);
-        match rng.weighted(&[10, 8, 10, 10, 8, 3, 30]) {
+        match rng.weighted(&[10, 8, 10, 10, 8, 3, 30, 3]) {
             0 => {
                 // explicit address dial
                 *ops.entry("dial").or_insert(0) += 1;
@@ -278,6 +287,12 @@ where
                     live[rng.usize(live.len())].cmd(HCmd::Open { proto: format!("/probe/{g}"), tag: seq });
                 }
             }
+            7 => {
+                // the muxer of one of node i's connections reports an address change
+                *ops.entry("address_change").or_insert(0) += 1;
+                net.board.inject_address_change(i, mem(5000 + rng.below(1000)));
+                net.run(rng.range(1, 40), sink!());
+            }
             5 => {
                 *ops.entry("disconnect").or_insert(0) += 1;
                 let _ = net.swarm(i).disconnect_peer_id(pj);
@@ -295,6 +310,7 @@ where
     let mut sig = Sig::new().u64(nf as u64).u64(mask).u64(case % 4);
     let (mut denied_conns, mut established, mut handler_events, mut notifications) = (0u64, 0u64, 0u64, 0u64);
     let mut close_scripts = 0u64;
+    let mut address_changes_seen = 0u64;
     for i in 0..nodes {
         let logs: Vec<Vec<BEv>> = (0..nf).map(|f| ctls[i][f].log()).collect();
         // (a) identical FromSwarm sequences
@@ -463,6 +479,18 @@ where
                     }
                 }
             }
+            // connection events reach every field's handler: per connection, all fields saw the same number of
+            // address changes (they are delivered to the composed handler in one call)
+            if f == 0 {
+                let conns: Vec<ConnectionId> = ctls[i][0].with(|p| p.handlers.keys().copied().collect());
+                for c in conns {
+                    let counts: Vec<usize> = (0..nf).map(|g| ctls[i][g].handler(c).map(|h| h.log().iter().filter(|e| matches!(e, HEv::AddressChange)).count()).unwrap_or(0)).collect();
+                    address_changes_seen += counts[0] as u64;
+                    if counts.iter().any(|k| *k != counts[0]) {
+                        c58.push(("connection-event-not-forwarded-to-every-field".into(), format!("node {i}: address changes seen by the fields' handlers on {c}: {counts:?}"), json!({"node": i, "conn": c.to_string()})));
+                    }
+                }
+            }
             // graceful close: a handler whose poll_close was started is driven until it returns Ready(None), and every
             // final event it hands out reaches its own field
             if quiescent {
@@ -506,21 +534,27 @@ where
     }
     let sample = json!({"fields": nf, "nodes": nodes, "node0_deny_mask": mask, "node0_deny_point": format!("{point:?}"), "ops": ops,
         "node0_app_events": app[0].iter().take(20).map(|e| format!("{e:?}")).collect::<Vec<_>>()});
-    Out { sig: sig.0, interleaving: net.trace.0, denied_conns, established, handler_events, notifications, c06, c58, sample, quiescent, addr_checks, close_scripts }
+    Out { sig: sig.0, interleaving: net.trace.0, denied_conns, established, handler_events, notifications, c06, c58, sample, quiescent, addr_checks, close_scripts, address_changes_seen }
 }
 
 fn run_common(args: &Args, which: &str) -> i32 {
     let check = Check::new(
         args,
         "exploration",
-        "derived behaviours of 2 and 3 Probe fields in 2-3 real swarms; node 0 walks every (deny mask over fields, decision point) combination, \
+        "derived behaviours of 2 and 3 Probe fields (a fifth of the cases: both fields wrapped in the swarm's Toggle) in 2-3 real swarms; node 0 walks every (deny mask over fields, decision point) combination, \
          other nodes deny at random; PRNG ops (dials incl. behaviour-extended address lists, NotifyHandler One/Any, handler events, streams, \
          disconnects) under the PRNG scheduler; non-trivial = history with >=1 denied and >=1 established connection; distinct by \
          (fields, mask, point, per-connection outcome sequence)",
     );
     let cases = args.tier.pick(2_400, 200_000);
     vmon::par_cases_timed(&check, cases, args.threads, args.tier.pick(30.0, 400.0), |i, rng| {
-        let o = if i % 2 == 0 {
+        let o = if i % 5 == 4 {
+            run_case_generic::<TwoToggle>(rng, i / 2, 2, &|mut p| {
+                let b = p.pop().unwrap();
+                let a = p.pop().unwrap();
+                TwoToggle { a: Some(a).into(), b: Some(b).into() }
+            })
+        } else if i % 2 == 0 {
             run_case_generic::<Two>(rng, i / 2, 2, &|mut p| {
                 let b = p.pop().unwrap();
                 let a = p.pop().unwrap();
@@ -542,6 +576,7 @@ fn run_common(args: &Args, which: &str) -> i32 {
         check.count("handler_notifications_observed", o.notifications);
         check.count("address_union_checks", o.addr_checks);
         check.count("handler_poll_close_scripts_run", o.close_scripts);
+        check.count("muxer_address_changes_seen_by_handlers", o.address_changes_seen);
         if !o.quiescent {
             check.inconclusive("not quiescent within step budget");
         }
